@@ -6,10 +6,11 @@ from vf import rustsrc as rs
 F = "src/router.rs"
 P = "Tracked(&mut *p)"
 
-R_LOCK = Rule("D17", r"let (?:mut )?comm = self\.comm\.lock\(\)\.unwrap\(\);", "let comm = &mut *comm_guard;",
+R_LOCK = Rule("D17", r"let (?:mut )?comm = self\.comm\.lock\(\)\.unwrap\(\);", "let comm = &mut *comm_guard; ghost_set_locked(true, Tracked(&mut *p));",
               "mutex elimination: the guard becomes an exclusive borrow passed in (poisoning not modelled)", min_count=1)
 R_MSG = AppendArg("B30", r"comm\s*\.msg_sender\s*\.send\(", P, "crossbeam sender stub over the ghost world", min_count=1)
 R_WAKE = AppendArg("B31", r"comm\s*\.wakeup_sender\s*\.send\(", P, "ipc wake-up sender stub", min_count=1)
+R_UNLOCK = Rule("D17b", r"\bdrop\(comm\);", "ghost_set_locked(false, Tracked(&mut *p));", "dropping the guard releases the mutex (ghost flag)")
 R_ACK = AppendArg("B32", r"ack_receiver\.recv\(", P, "acknowledgement receiver stub")
 
 
@@ -43,21 +44,21 @@ class MapUnwrap(Rule):
 add_route = Fn(F, ["impl RouterProxy", "add_route"], extra_params="comm_guard: &mut RouterProxyComm, Tracked(p): Tracked<&mut P>",
     ensures=[
         Clause("router.add_route/ensures.inert_after_shutdown",
-               "old(comm_guard).shutdown ==> *final(p) == *old(p)", ["C17"]),
+               "old(comm_guard).shutdown ==> final(p).msgs == old(p).msgs && final(p).wakeups == old(p).wakeups && final(p).ack_waited == old(p).ack_waited", ["C17"]),
         Clause("router.add_route/ensures.one_message_one_wakeup_message_first",
                "!old(comm_guard).shutdown ==> final(p).msgs == old(p).msgs.push(Sent::Route(receiver.rid)) && final(p).wakeups == old(p).wakeups + 1", ["C07", "C17"]),
         Clause("router.add_route/ensures.flag_untouched", "final(comm_guard).shutdown == old(comm_guard).shutdown", ["C17"]),
     ],
-    rules=[R_LOCK, R_MSG, R_WAKE], safety_props=["C17", "C07"])
+    rules=[R_LOCK, R_UNLOCK, R_MSG, R_WAKE], safety_props=["C17", "C07"])
 
 shutdown = Fn(F, ["impl RouterProxy", "shutdown"], extra_params="comm_guard: &mut RouterProxyComm, Tracked(p): Tracked<&mut P>",
     ensures=[
         Clause("router.shutdown/ensures.flag_set", "final(comm_guard).shutdown", ["C17"]),
-        Clause("router.shutdown/ensures.idempotent", "old(comm_guard).shutdown ==> *final(p) == *old(p)", ["C17"]),
+        Clause("router.shutdown/ensures.idempotent", "old(comm_guard).shutdown ==> final(p).msgs == old(p).msgs && final(p).wakeups == old(p).wakeups && final(p).ack_waited == old(p).ack_waited", ["C17"]),
         Clause("router.shutdown/ensures.one_wakeup_one_shutdown_message_then_wait_for_ack",
                "!old(comm_guard).shutdown ==> final(p).msgs == old(p).msgs.push(Sent::Shutdown) && final(p).wakeups == old(p).wakeups + 1 && final(p).ack_waited", ["C17", "C07"]),
     ],
-    rules=[R_LOCK, R_MSG, R_WAKE, R_ACK, MapUnwrap()], safety_props=["C17"])
+    rules=[R_LOCK, R_UNLOCK, R_MSG, R_WAKE, R_ACK, MapUnwrap()], safety_props=["C17"])
 
 UNIT = Unit(
     name="u6b_proxy",
@@ -67,6 +68,7 @@ UNIT = Unit(
     prelude_clauses={
         "router.shutdown/requires.ack_awaited_only_after_the_shutdown_message": ["C17"],
         "router.shutdown/requires.wakeup_send_unwrap": ["C17"],
+        "router.shutdown/requires.mutex_held_while_waiting_for_the_ack": ["C17"],
     },
     kernel_clauses=[
         "std::sync::Mutex gives exclusive access to RouterProxyComm; poisoning is not modelled; racing callers are serialised by it",
